@@ -399,10 +399,11 @@ def gen_misc_program(rng, path):
             return 'put_att %s %s %s %d %s' % (tgt, nm, xt, n, ' '.join(str(rng.range(0, 100)) for _ in range(n)))
         if r == 3:
             return 'del_att %s %s' % (tgt, nm)
+        # (a _FillValue of the wrong type / length smuggled in by rename_att or copy_att is witness FILLBYPASS)
         if r == 4:
-            return 'rename_att %s %s %s' % (tgt, nm, rng.choice(names))
+            return 'rename_att %s %s %s' % (tgt, nm, rng.choice(names[:4] + names[5:]))
         if r == 5:
-            return 'copy_att %s %s %s' % (tgt, nm, rng.choice(['-'] + [v[0] for v in vars_]))
+            return 'copy_att %s %s %s' % (tgt, rng.choice(names[:4] + names[5:]), rng.choice(['-'] + [v[0] for v in vars_]))
         if r == 6:
             return 'get_att %s %s text' % (tgt, nm)
         if r == 7:
@@ -617,6 +618,21 @@ def witnesses(V, tree_p, tree_a, wd, api_asan, open_p, open_a, drv, tier):
     record('WAITBOGUS', 'api:wait-refused-for-unknown-id-then-wait-use-after-free', bool(kind) or rc != 0,
            'bput q2, bput q3, ncmpi_wait_all(3, {q3, never-issued id, NC_REQ_NULL}) = NC_EINVAL_REQUEST, iput q4, ncmpi_wait_all(2, {q2, NC_REQ_NULL}), '
            'ncmpi_wait_all(NC_REQ_ALL): rc=%s %s@%s' % (rc, kind, site), dict(script=text))
+    # FILLBYPASS: ncmpi_put_att checks type and length of _FillValue, ncmpi_copy_att / ncmpi_rename_att do not
+    for wid, text in (('FILLBYPASS-copy', '1 * create cf.nc 2 clobber -\n2 * def_dim x 5\n3 * def_var a int 1 x\n4 * def_var b double 1 x\n5 * def_var_fill a 0 49\n'
+                                          '6 * copy_att a _FillValue b\n7 * enddef\n8 * put vara c b ulonglong c 0 1 - - : 1\n9 * close\n'),
+                      ('FILLBYPASS-rename', '1 * create rf.nc 2 clobber -\n2 * def_dim x 5\n3 * def_var b double 1 x\n4 * put_att b a0 short 1 7\n'
+                                            '5 * rename_att b a0 _FillValue\n6 * enddef\n7 * put vara c b ulonglong c 0 1 - - : 1\n8 * close\n')):
+        rc, lines, err = run_script_asan(api_asan, text, 1, wd, wid.lower())
+        kind, site = report_sig(err)
+        record(wid, 'api:_FillValue-of-wrong-type-via-copy_att-or-rename_att-over-read', bool(kind) or rc != 0,
+               '%s: a 4-/2-byte attribute becomes the _FillValue of a double variable, the next converting put reads 8 bytes of it: rc=%s %s@%s' % (wid, rc, kind, site), dict(script=text))
+    text = ('1 * create rf2.nc 2 clobber -\n2 * def_dim t 0\n3 * def_var b int 1 t\n4 * put_att b a0 int 2 7 8\n5 * rename_att b a0 _FillValue\n'
+            '6 * enddef\n7 * fill_var_rec b 0\n8 * close\n')
+    rc, lines, err = run_script_asan(api_asan, text, 1, wd, 'f11b')
+    kind, site = report_sig(err)
+    record('F11-via-rename_att', 'api:fill_var_rec-double-free-on-bad-_FillValue', bool(kind) or rc != 0,
+           'the F11 state reached through the API alone (put_att a0 = int {7,8}; rename_att a0 -> _FillValue; fill_var_rec): rc=%s %s@%s' % (rc, kind, site), dict(script=text))
     # N2: hash size 0
     text = '1 * create n2.nc 1 clobber nc_hash_size_dim=0\n2 * def_dim x 10\n3 * def_dim y 10\n4 * enddef\n5 * close\n'
     rc, lines, err = run_script_asan(api_asan, text, 1, wd, 'n2')
